@@ -151,6 +151,10 @@ TaskId spawn(void (*f)(void*), void* arg);
 void joinTask(TaskId t);
 bool taskFinished(TaskId t);
 
+// happens-before oracle for "no access races with its destruction": a free() of a heap block that is not ordered after
+// every other thread's last access to it (by mutexes, joins, semaphores or atomics WITH their memory orders) is a violation
+void enableDestructionRaceOracle(bool on);
+
 // heap table (flavour T only; no-ops otherwise)
 size_t heapLive();           // tracked live blocks allocated during this run
 bool heapTracking();
